@@ -264,6 +264,31 @@ func spdxPurposes(c *Ctx, wr, rd []*declInfo) {
 			}
 		}
 	}
+	if len(rrows) == 0 {
+		// the reader's table may live in a converter function string → sbom.Purpose: fold it on
+		// the labels of its own switch
+		for _, f := range converters(rd, sigPred(isString, isNamed("pkg/sbom", "Purpose"))) {
+			fd, pk := c.P.FuncDecl(objName(f))
+			if fd == nil || fd.Body == nil {
+				continue
+			}
+			for _, sw := range findSwitches(fd.Body) {
+				for _, cc := range sw.Body.List {
+					cl := cc.(*ast.CaseClause)
+					for _, e := range cl.List {
+						lbl, ok := constOf(pk, e)
+						if !ok || !lbl.isStr() {
+							continue
+						}
+						if out := c.apply(f, lbl); len(out) == 1 && out[0].k == vConst {
+							rrows = append(rrows, switchRow{keys: []value{lbl}, val: value{k: vList, list: []value{out[0]}}, pos: e.Pos()})
+							rpos = c.P.Pos(sw.Pos())
+						}
+					}
+				}
+			}
+		}
+	}
 	if len(wrows) == 0 || len(rrows) == 0 {
 		c.undecided(R, "anchor:purpose-switches", "-", fmt.Sprintf("purpose switches not found (writer rows %d, reader rows %d)", len(wrows), len(rrows)))
 		return
